@@ -1261,10 +1261,8 @@ As a workaround use x.as_expr() %s y.as_expr()""" % op)
             x = expr(x)
 
         if state.check_units:
-            sunits = self.canonical_units
-            xunits = x.canonical_units
-
-            if (sunits != xunits and self.sympy != 0 and x.sympy != 0 and not
+            if (units.simplify_units(self.units / x.units) != 1
+                    and self.sympy != 0 and x.sympy != 0 and not
                     (state.loose_units and (self.is_undefined or x.is_undefined))):
                 self._incompatible(
                     x, op, ' since the units %s are incompatible with %s' % (self.units, x.units))
